@@ -162,7 +162,7 @@ fn server_shape(r: &mut Rng) -> (&'static str, Box<dyn Fn(u64) -> String>) {
 }
 
 /// (pid, stack, locals, frames, status) of every process except the REPL's after the system went quiet.
-fn run_server(src: &str, b: &Builtins, iterations: u64) -> Result<Vec<(usize, usize, usize, usize, String)>, String> {
+fn run_server(src: &str, b: &Builtins, iterations: u64) -> Result<(Vec<(usize, usize, usize, usize, String)>, usize), String> {
     use qverif::sim::{EvalOutcome, Sim};
     let src = src.to_string();
     let b = b.clone();
@@ -176,12 +176,15 @@ fn run_server(src: &str, b: &Builtins, iterations: u64) -> Result<Vec<(usize, us
         // let the server drain its mailbox
         sim.run_fair(rounds, |s| s.quiescent());
         let repl_pid = sim.repl.as_ref().map(|r| r.process_id()).unwrap_or(0);
-        Ok(sim
-            .processes()
-            .into_iter()
-            .filter(|(pid, _, _)| *pid != repl_pid)
-            .map(|(pid, _, info)| (pid, info.stack_size, info.locals_count, info.frames_count, format!("{:?}/mailbox={}", info.status, info.mailbox_size)))
-            .collect())
+        let slots = sim.workers[0].verif_executor().heap_stats().slots;
+        Ok((
+            sim.processes()
+                .into_iter()
+                .filter(|(pid, _, _)| *pid != repl_pid)
+                .map(|(pid, _, info)| (pid, info.stack_size, info.locals_count, info.frames_count, format!("{:?}/mailbox={}", info.status, info.mailbox_size)))
+                .collect(),
+            slots,
+        ))
     })
     .unwrap_or_else(|p| Err(format!("panic: {}", p.lines().next().unwrap_or(""))))
 }
@@ -473,8 +476,20 @@ fn main() {
             }
         }
         match (run_server(&src_n, &b, n), run_server(&src_50, &b, 50 * n)) {
-            (Ok(a), Ok(c)) => {
+            (Ok((a, slots_n)), Ok((c, slots_50))) => {
                 servers_checked += 1;
+                // binaries allocated per message and dropped: the worker's heap stays bounded
+                if slots_50 > slots_n + 64 {
+                    ev.violation(
+                        &format!("shape={kind} kind=server-heap-grows"),
+                        &format!("server loop {kind}: worker heap has {slots_n} slots after {n} messages and {slots_50} after {}", 50 * n),
+                        json!({"source_at_N": src_n, "source_at_50N": src_50, "N": n, "slots_N": slots_n, "slots_50N": slots_50}),
+                        true,
+                    );
+                }
+                if slots_n > 0 {
+                    ev.hit("server:heap-allocating");
+                }
                 ev.case(&src_n, !a.is_empty());
                 ev.sample_sparse(i, 12, || json!({"kind": kind, "N": n, "source_at_N": src_n, "server_at_N": format!("{a:?}"), "server_at_50N": format!("{c:?}")}));
                 // the server is the first process spawned; a shape may spawn a child per message
